@@ -399,6 +399,35 @@ func (vc *VC) epochBase(ep *Epoch, key string) Term {
 		if !vc.declared[n] {
 			vc.declared[n] = true
 			vc.emit(fmt.Sprintf("(declare-const %s %s)", n, ki.sort))
+			if i := strings.LastIndex(key, "#"); i >= 0 && (strings.HasSuffix(key, "#arr") || strings.HasSuffix(key, "#off") || strings.HasSuffix(key, "#len") || strings.HasSuffix(key, "#cap")) {
+				// slice header well-formedness for every slice stored in this base heap (joint axiom, once)
+				pre := key[:i]
+				tag := fmt.Sprintf("slicewf:%d:%s", ep.id, pre)
+				if !vc.declared[tag] {
+					vc.declared[tag] = true
+					var hs [4]Term
+					for j, suf := range []string{"#arr", "#off", "#len", "#cap"} {
+						vc.keyOf(pre+suf, ki.sort)
+						if suf == "#arr" {
+							vc.markRef(pre + suf)
+						}
+						hs[j] = vc.epochBase(ep, pre+suf)
+					}
+					wf := func(a, o, l, c Term) Term {
+						return fmt.Sprintf("(and (<= 0 %s) (<= 0 %s) (<= 0 %s) (<= %s %s) (<= (+ %s %s) %s) (=> (= %s 0) (= %s 0)))", a, o, l, l, c, o, c, maxSliceLen, a, c)
+					}
+					switch ki.sort {
+					case "Int":
+						vc.emit(fmt.Sprintf("(assert %s)", wf(hs[0], hs[1], hs[2], hs[3])))
+					case "(Array Int Int)":
+						sel := func(h Term) Term { return fmt.Sprintf("(select %s x)", h) }
+						vc.emit(fmt.Sprintf("(assert (forall ((x Int)) (! %s :pattern (%s) :pattern (%s) :pattern (%s))))", wf(sel(hs[0]), sel(hs[1]), sel(hs[2]), sel(hs[3])), sel(hs[0]), sel(hs[2]), sel(hs[3])))
+					case "(Array Int (Array Int Int))":
+						sel := func(h Term) Term { return fmt.Sprintf("(select (select %s x) y)", h) }
+						vc.emit(fmt.Sprintf("(assert (forall ((x Int) (y Int)) (! %s :pattern (%s) :pattern (%s) :pattern (%s))))", wf(sel(hs[0]), sel(hs[1]), sel(hs[2]), sel(hs[3])), sel(hs[0]), sel(hs[2]), sel(hs[3])))
+					}
+				}
+			}
 			if it, ok := vc.keyInt[key]; ok {
 				switch ki.sort {
 				case "Int":
@@ -1649,6 +1678,7 @@ func (f *frame) execBlock(b *ssa.BasicBlock, cur *State) {
 			}
 			cur = &State{dead: true}
 		default:
+			f.checkAsserts(b, in, cur)
 			if f.isCut(in) {
 				cur = &State{dead: true}
 				break
@@ -1680,6 +1710,46 @@ func (f *frame) execBlock(b *ssa.BasicBlock, cur *State) {
 			g := f.edgeGuardFor(b, s, nth)
 			f.backEdge(b, s, nth, cur, g)
 		}
+	}
+}
+
+// checkAsserts emits ASSERT obligations for assert@"anchor" clauses anchored on the source line of in.
+func (f *frame) checkAsserts(b *ssa.BasicBlock, in ssa.Instruction, cur *State) {
+	ct := f.ct
+	if ct == nil || len(ct.Asserts) == 0 || !in.Pos().IsValid() || f.specMode || f.depth != 0 {
+		return
+	}
+	if _, isDbg := in.(*ssa.DebugRef); isDbg {
+		return
+	}
+	p := f.vc.eng.fset.Position(in.Pos())
+	line := f.vc.eng.sourceLine(p.Filename, p.Line)
+	idx := 0
+	for i, x := range b.Instrs {
+		if x == in {
+			idx = i
+		}
+	}
+	for ai, as := range ct.Asserts {
+		key := fmt.Sprintf("assert:%d", ai)
+		if f.vc.declared[key] || !strings.Contains(line, as.Label) {
+			continue
+		}
+		f.vc.declared[key] = true
+		sc := f.assertScope(b, idx, cur)
+		t, err := sc.evalBool(as.E)
+		if err != nil {
+			f.vc.errs = append(f.vc.errs, fmt.Sprintf("%s: %v", as.Line, err))
+			continue
+		}
+		tags := as.Tags
+		if len(tags) == 0 {
+			tags = ct.Tags
+		}
+		f.vc.withTags(tags, func() {
+			f.vc.oblige(cur, "ASSERT", strings.Join(strings.Fields(as.Label), " "), t, f.where(in.Pos()), "assert "+as.E.String())
+		})
+		f.vc.assume(cur, t)
 	}
 }
 
